@@ -61,6 +61,28 @@ func generateFromStates(o *lib.Out, r *lib.Rand, reps int) {
 	d.Exit()
 }
 
+// ids keep increasing across Topic.Empty (the generator's state is the only protection
+// against reuse): id, empty, id, ... in a tight loop on a memory-only topic
+func idsAcrossEmpty(o *lib.Out, r *lib.Rand, rounds int) {
+	opts := nsqdlib.NewOpts(nsqdlib.ScratchDir())
+	opts.ID = int64(r.Intn(1024))
+	d, err := nsqd.New(opts)
+	if err != nil {
+		lib.Fatalf("nsqd.New: %v", err)
+	}
+	topic := d.GetTopic("emptied#ephemeral")
+	parts := make([]string, 0, 2*rounds)
+	for i := 0; i < rounds; i++ {
+		parts = append(parts, z(hexID(topic.GenerateID())))
+		topic.Empty()
+		parts = append(parts, z(hexID(topic.GenerateID())))
+	}
+	d.Exit()
+	o.Emit(lib.Case{Name: "ids-across-topic-empty", Coq: "(J12.Burst [[" + strings.Join(parts, ";") + "]])",
+		Input: map[string]interface{}{"kind": "ids-across-empty", "rounds": rounds},
+		Tags:  []string{"kind=ids-across-topic-empty"}, Nontrivial: true, Obs: map[string]interface{}{"ids": 2 * rounds}})
+}
+
 type rawConn struct {
 	c net.Conn
 	r *bufio.Reader
